@@ -451,6 +451,9 @@ impl C15 {
 const N_CTOR: u64 = 9;
 
 impl Check for C15 {
+    fn quick_is_thorough(&self) -> bool {
+        true
+    }
     fn id(&self) -> &'static str {
         "C15"
     }
